@@ -34,11 +34,15 @@ OK_FACTORIES = [
     ("vf.harness.c19_factories.Widget", "Widget"),
     ("vf.harness.c19_factories.Box.Inner.build", "Box.Inner.build"),
     ("vf.harness.c19pkg.sub.deep", "deep"),
+    # a C-implemented factory: no introspectable signature, no call log (only used without __args__)
+    ("builtins.dict", "dict"),
 ]
 FAIL = {
     1: ("vf_no_such_module_xyz.thing", None),
     2: ("vf.harness.c19_factories.missing_attr", None),
     3: ("vf.harness.c19_factories.explode", "explode"),
+    4: ("", None),  # a __type__ key is present: the mapping is a construction request whatever the value is
+    5: (None, None),
 }
 
 
@@ -80,7 +84,7 @@ class Gen:
         ctx = self.ctx
         mode = 0
         if self.fail_budget > 0:
-            mode = ctx.choice("mode_" + pos, 4 if allow_resolution_failure else 2)
+            mode = ctx.choice("mode_" + pos, 6 if allow_resolution_failure else 2)
             if not allow_resolution_failure and mode == 1:
                 mode = 3
             if mode:
@@ -88,7 +92,10 @@ class Gen:
         if mode:
             fqdn, name = FAIL[mode]
         else:
-            fqdn, name = OK_FACTORIES[self.typed % len(OK_FACTORIES)]
+            idx = self.typed % len(OK_FACTORIES)
+            if OK_FACTORIES[idx][1] == "dict" and args is not None:
+                idx = 0
+            fqdn, name = OK_FACTORIES[idx]
         self.typed += 1
         cfg = {}
         # __type__ position inside the mapping is arbitrary: first or last, alternating
@@ -182,11 +189,12 @@ def oracle(spec, where, log, extra=()):
         else:
             s = dict(spec.children)[key]
             vals[key] = oracle(s, "%s.%s" % (where, key), log)
-    if spec.mode in (1, 2):
+    if spec.mode in (1, 2, 4, 5):
         raise Failure(where)
     args = vals.pop("__args__", ("list", []))[1]
     kwargs = [(k, vals[k]) for k in spec.order if k in vals] + (list(extra) if where == "" else [])
-    log.append((spec.name, args, kwargs))
+    if spec.name != "dict":
+        log.append((spec.name, args, kwargs))
     if spec.mode == 3:
         raise Failure(where)
     return ("built", spec.name, args, kwargs)
@@ -200,6 +208,9 @@ def matches(got, exp):
         return isinstance(got, (list, tuple)) and len(got) == len(exp[1]) and all(matches(g, e) for g, e in zip(got, exp[1]))
     if tag == "map":
         return isinstance(got, dict) and list(got.keys()) == [k for k, _ in exp[1]] and all(matches(got[k], e) for k, e in exp[1])
+    if tag == "built" and exp[1] == "dict":
+        return (type(got) is dict and list(got.keys()) == [k for k, _ in exp[3]]
+                and all(matches(got[k], e) for k, e in exp[3]))
     if tag == "built":
         return (isinstance(got, F.Built) and got.name == exp[1] and matches(list(got.args), ("list", exp[2]))
                 and list(got.kwargs.keys()) == [k for k, _ in exp[3]] and all(matches(got.kwargs[k], e) for k, e in exp[3]))
